@@ -18,6 +18,7 @@ let () =
     | "hdoc" -> C15.hdoc_line, None
     | "gap" -> Gap.model_line, None
     | "hdp" -> Hdp.model_line, Some Hdp.judge_line
+    | "astream" -> Astream.model_line, Some Astream.judge_line
     | "ptok" -> Ptok.model_line, Some Ptok.judge_line
     | "dtok" -> Ptok.model_line, Some Ptok.dtok_judge
     | "xp" -> Xp.model_line, None
